@@ -18,7 +18,7 @@ Theorem c43_roundtrip_supported : forall k num D,
 Proof. exact roundtrip_supported. Qed.
 
 (* Complete characterisation of every round trip, all inputs (u8 decimals):
-   panic / None exactly under the stated conditions; otherwise a valid Decimal that denotes
+   None exactly under the stated conditions; otherwise a valid Decimal that denotes
    trunc/10^D where trunc = the input with its low [drop] digits zeroed, and the way back
    returns trunc or "value is too big". *)
 Theorem c43_roundtrip_characterised : forall k num D,
@@ -26,11 +26,10 @@ Theorem c43_roundtrip_characterised : forall k num D,
   rt_out k num D (roundtrip k num D).
 Proof. exact roundtrip_spec. Qed.
 
-(* "Never panics" holds exactly outside class 3. *)
-Theorem c43_forward_panic_iff : forall k num D,
-  0 <= k <= 5 -> kind_in_range k num = true -> 0 <= D <= 255 ->
-  (forward k num D = FPanic <-> class_panic k num D).
-Proof. exact forward_panic_iff. Qed.
+(* The forward conversions never panic (class 3 repaired: a scale above 28 is reported as None). *)
+Theorem c43_forward_never_panics : forall k num D,
+  0 <= k <= 5 -> kind_in_range k num = true -> 0 <= D <= 255 -> forward k num D <> FPanic.
+Proof. exact forward_never_panics. Qed.
 
 (* Outside classes 1 and 2 nothing is scaled or truncated: the Decimal denotes num/10^D exactly
    and the way back returns the original or an error. *)
@@ -65,16 +64,14 @@ Proof. exact backward_err. Qed.
 Theorem c43_rescale_to_mantissa_spec : forall d decimals, valid d -> 0 <= decimals <= 255 ->
   rescale_to_mantissa d decimals =
     if (dm d =? 0) && (67 <=? decimals) then Err 1
-    else if in_s 128 (target d decimals) then Ok (target d decimals)
-    else if 31 <=? dsc (rescale d decimals) then Err E_PANIC else Err 1.
+    else if in_s 128 (target d decimals) then Ok (target d decimals) else Err 1.
 Proof. exact rescale_to_mantissa_spec. Qed.
 
-(* ... and it PANICS (class 6; Err E_PANIC encodes the panic) exactly when that error is raised
-   after rescale left a scale >= 31 behind: the error message formats the Decimal. *)
-Theorem c43_back_panic_iff : forall d decimals, valid d -> 0 <= decimals <= 255 ->
-  (rescale_to_mantissa d decimals = Err E_PANIC <->
-   dm d <> 0 /\ in_s 128 (target d decimals) = false /\ 31 <= dsc (rescale d decimals)).
-Proof. exact back_panic_iff. Qed.
+(* ... and it never panics (class 6 repaired: the error message formats the original value;
+   Err E_PANIC is the model's encoding of a panic) *)
+Theorem c43_back_never_panics : forall d decimals, valid d -> 0 <= decimals <= 255 ->
+  rescale_to_mantissa d decimals <> Err E_PANIC.
+Proof. exact back_never_panics. Qed.
 
 (* the scale reached by rescale when scaling up (determines j uniquely) *)
 Theorem c43_rescale_up_scale : forall d decimals, valid d -> dm d <> 0 -> dsc d < decimals ->
@@ -113,10 +110,9 @@ Proof.
   exists 18446744073709551615, 29, (mkDec false 1844674407370955161 28), 18446744073709551610.
   vm_compute. repeat split; congruence.
 Qed.
-(* class 3 *)
-Theorem c43_panic_refuted : exists num D,
-  kind_in_range 0 num = true /\ 0 <= D <= 255 /\ forward 0 num D = FPanic.
-Proof. exists 340282366920938463463374607431768211455, 48. vm_compute. repeat split; congruence. Qed.
+(* class 3 (repaired): the former panic input is now reported as None *)
+Example c43_ex_former_panic_is_none : forward 0 340282366920938463463374607431768211455 48 = FNone.
+Proof. vm_compute. reflexivity. Qed.
 (* class 4: representable (10^30 / 10^2 = 10^28 < 2^96) but rejected *)
 Theorem c43_large_representable_rejected_refuted : exists num D m s,
   kind_in_range 0 num = true /\ 0 <= D <= 28 /\ 0 <= m <= MAX_REPR /\ 0 <= s <= 28 /\
@@ -130,10 +126,9 @@ Proof.
   exists (3 * 10 ^ 38), 20, (mkDec false (3 * 10 ^ 27) 9). vm_compute. repeat split; congruence.
 Qed.
 
-(* class 6: the error path of the back conversion panics *)
-Theorem c43_back_error_path_panics_refuted : exists d decimals,
-  valid d /\ 0 <= decimals <= 255 /\ decimal_to_signed_value d decimals = Err E_PANIC.
-Proof. exists (mkDec false 1 28), 67. vm_compute. repeat split; congruence. Qed.
+(* class 6 (repaired): the former panic input is now an error *)
+Example c43_ex_former_back_panic_is_err : decimal_to_signed_value (mkDec false 1 28) 67 = Err 1.
+Proof. vm_compute. reflexivity. Qed.
 
 (* ---------- non-vacuity ---------- *)
 Example c43_ex_supported_nontrivial :
